@@ -42,7 +42,8 @@ Record good (cfg : config) (fs : fsys) (c : tcache) (next : nat) : Prop := {
   g_fc : forall p f n e, alookup fs p = Some f -> alookup c n = Some e -> file_key cfg f = entry_key cfg e ->
            f_content f = e_content e;
   g_ff : forall p f p' f', alookup fs p = Some f -> alookup fs p' = Some f' -> file_key cfg f = file_key cfg f' ->
-           f_content f = f_content f' }.
+           f_content f = f_content f';
+  g_c_ok : forall n e, alookup c n = Some e -> broken (e_content e) = 0%N }.   (* only what compiled is cached *)
 
 (* with caching off the callbacks always say "stale": nothing needs to hold *)
 Definition inv (cfg : config) (fs : fsys) (c : tcache) (next : nat) : Prop :=
@@ -50,7 +51,7 @@ Definition inv (cfg : config) (fs : fsys) (c : tcache) (next : nat) : Prop :=
 
 Lemma inv_nil cfg fs c next : inv cfg fs c next -> inv cfg fs [] next.
 Proof.
-  intros H Hc. destruct (H Hc) as [H1 H2 H3 H4]. split; auto; cbn; intros; discriminate.
+  intros H Hc. destruct (H Hc) as [H1 H2 H3 H4 H5]. split; auto; cbn; intros; discriminate.
 Qed.
 
 Lemma inv0 cfg : inv cfg [] [] 0.
@@ -63,7 +64,8 @@ Proof. unfold entry_key, file_key. now destruct (root_dir cfg). Qed.
 Lemma load_spec cfg fs c name c' r : load cfg fs c name = (c', r) -> r = spec_get cfg fs name.
 Proof.
   unfold load, spec_get. destruct (resolve cfg name) as [p|]; [|now intros [= <- <-]].
-  destruct (alookup fs p) as [f|]; now intros [= <- <-].
+  destruct (alookup fs p) as [f|]; [|now intros [= <- <-]].
+  destruct (broken (f_content f) =? 0)%N; now intros [= <- <-].
 Qed.
 
 Lemma load_good cfg fs c next name c' r :
@@ -71,11 +73,14 @@ Lemma load_good cfg fs c next name c' r :
 Proof.
   intros G. unfold load. destruct (resolve cfg name) as [p|]; [|now intros [= <- <-]].
   destruct (alookup fs p) as [f|] eqn:Ef; [|now intros [= <- <-]].
-  intros [= <- <-]. destruct G as [H1 H2 H3 H4]. split; auto.
+  destruct (broken (f_content f) =? 0)%N eqn:Eb; [|now intros [= <- <-]].
+  apply N.eqb_eq in Eb.
+  intros [= <- <-]. destruct G as [H1 H2 H3 H4 H5]. split; auto.
   - intros n e. rewrite alookup_aset. destruct (bytes_eqb name n); [|apply H2].
     intros [= <-]. rewrite entry_key_of_file. eauto.
   - intros p0 f0 n e Hf. rewrite alookup_aset. destruct (bytes_eqb name n); [|now apply (H3 p0 f0 n e)].
     intros [= <-]. rewrite entry_key_of_file. cbn [e_content]. intros Hv. now apply (H4 p0 f0 p f).
+  - intros n e. rewrite alookup_aset. destruct (bytes_eqb name n); [|apply H5]. now intros [= <-].
 Qed.
 
 Lemma get_template_good cfg fs c next name c' r :
@@ -91,7 +96,8 @@ Proof.
     intros [= <- <-]. split; [|now intros _]. unfold current_version in Ev. unfold spec_get.
     destruct (resolve cfg name) as [p|]; [|discriminate].
     destruct (alookup fs p) as [f|] eqn:Ef; [|discriminate].
-    cbn in Ev. apply Nat.eqb_eq in Ev. f_equal. symmetry. exact (g_fc _ _ _ _ G p f name e Ef Ec Ev).
+    cbn in Ev. apply Nat.eqb_eq in Ev. pose proof (g_fc _ _ _ _ G p f name e Ef Ec Ev) as Hct.
+    rewrite Hct, (g_c_ok _ _ _ _ G name e Ec). reflexivity.
   - rewrite Hb. intros H. assert (H' : load cfg fs c name = (c', r)) by (destruct (root_dir cfg); exact H).
     split; [exact (load_spec _ _ _ _ _ _ H')|]. intros Hc. congruence.
 Qed.
@@ -124,6 +130,7 @@ Section ItemsProofs.
                     | (c1, ENotFound) => (c1, ENotFound)
                     | (c1, ETypeError) => (c1, ETypeError)
                     | (c1, EFuel) => (c1, EFuel)
+                    | (c1, EBroken k) => (c1, EBroken k)
                     end
                 | Import n =>
                     match get_template cfg fs c (join_path cfg n parent) with
@@ -131,6 +138,7 @@ Section ItemsProofs.
                     | (c1, ENotFound) => (c1, ENotFound)
                     | (c1, ETypeError) => (c1, ETypeError)
                     | (c1, EFuel) => (c1, EFuel)
+                    | (c1, EBroken k) => (c1, EBroken k)
                     end
                 | IncludeOpt n =>
                     match get_template cfg fs c (join_path cfg n parent) with
@@ -138,6 +146,7 @@ Section ItemsProofs.
                     | (c1, ENotFound) => (c1, Ok [])
                     | (c1, ETypeError) => (c1, ETypeError)
                     | (c1, EFuel) => (c1, EFuel)
+                    | (c1, EBroken k) => (c1, EBroken k)
                     end
                 end = (c1, r1) ->
                 r1 = match it with
@@ -145,12 +154,12 @@ Section ItemsProofs.
                      | Var k => Ok (ctx_get x k)
                      | Include n => match spec_get cfg fs (join_path cfg n parent) with
                                     | Ok ct => rec_spec (join_path cfg n parent) ct
-                                    | ENotFound => ENotFound | ETypeError => ETypeError | EFuel => EFuel
+                                    | ENotFound => ENotFound | ETypeError => ETypeError | EFuel => EFuel | EBroken k => EBroken k
                                     end
                      | Import n => map_ok export (spec_get cfg fs (join_path cfg n parent))
                      | IncludeOpt n => match spec_get cfg fs (join_path cfg n parent) with
                                        | Ok ct => rec_spec (join_path cfg n parent) ct
-                                       | ENotFound => Ok [] | ETypeError => ETypeError | EFuel => EFuel
+                                       | ENotFound => Ok [] | ETypeError => ETypeError | EFuel => EFuel | EBroken k => EBroken k
                                        end
                      end /\ I c1).
       { intros c1 r1. destruct it as [s|k|n|n|n].
@@ -158,26 +167,29 @@ Section ItemsProofs.
         - intros [= <- <-]. auto.
         - destruct (get_template cfg fs c (join_path cfg n parent)) as [c0 r0] eqn:Eg.
           destruct (Hget _ _ _ _ G Eg) as [-> G0].
-          destruct (spec_get cfg fs (join_path cfg n parent)) as [ct| | |].
+          destruct (spec_get cfg fs (join_path cfg n parent)) as [ct| | | |bk].
           + intros Hr. exact (Hrec _ _ _ _ _ G0 Hr).
+          + intros [= <- <-]. auto.
           + intros [= <- <-]. auto.
           + intros [= <- <-]. auto.
           + intros [= <- <-]. auto.
         - destruct (get_template cfg fs c (join_path cfg n parent)) as [c0 r0] eqn:Eg.
           destruct (Hget _ _ _ _ G Eg) as [-> G0].
-          destruct (spec_get cfg fs (join_path cfg n parent)) as [ct| | |]; intros [= <- <-]; auto.
+          destruct (spec_get cfg fs (join_path cfg n parent)) as [ct| | | |bk]; intros [= <- <-]; auto.
         - destruct (get_template cfg fs c (join_path cfg n parent)) as [c0 r0] eqn:Eg.
           destruct (Hget _ _ _ _ G Eg) as [-> G0].
-          destruct (spec_get cfg fs (join_path cfg n parent)) as [ct| | |].
+          destruct (spec_get cfg fs (join_path cfg n parent)) as [ct| | | |bk].
           + intros Hr. exact (Hrec _ _ _ _ _ G0 Hr).
+          + intros [= <- <-]. auto.
           + intros [= <- <-]. auto.
           + intros [= <- <-]. auto.
           + intros [= <- <-]. auto. }
       match goal with |- (let '(c1, r1) := ?X in _) = _ -> _ => destruct X as [c1 r1] eqn:Ei end.
       destruct (Hitem c1 r1 eq_refl) as [Hr1 G1]. rewrite <- Hr1.
-      destruct r1 as [s1| | |].
+      destruct r1 as [s1| | | |bk].
       + destruct (render_items cfg fs x rec parent rest c1) as [c2 r2] eqn:Er.
         destruct (IH _ _ _ G1 Er) as [-> G2]. intros [= <- <-]. auto.
+      + intros [= <- <-]. auto.
       + intros [= <- <-]. auto.
       + intros [= <- <-]. auto.
       + intros [= <- <-]. auto.
@@ -205,8 +217,9 @@ Section RenderProofs.
     intros G. unfold render, spec_render.
     destruct (get_template cfg fs c name) as [c0 r0] eqn:Eg.
     destruct (Hget _ _ _ _ G Eg) as [-> G0].
-    destruct (spec_get cfg fs name) as [ct| | |].
+    destruct (spec_get cfg fs name) as [ct| | | |bk].
     - now apply render_tpl_good.
+    - intros [= <- <-]. auto.
     - intros [= <- <-]. auto.
     - intros [= <- <-]. auto.
     - intros [= <- <-]. auto.
@@ -225,7 +238,7 @@ Qed.
    of its name - enough for a fresh engine, whatever edits came before *)
 Definition synced (cfg : config) (fs : fsys) (c : tcache) : Prop :=
   forall n e, alookup c n = Some e ->
-    exists p f, resolve cfg n = Some p /\ alookup fs p = Some f /\ e_content e = f_content f.
+    exists p f, resolve cfg n = Some p /\ alookup fs p = Some f /\ e_content e = f_content f /\ broken (e_content e) = 0%N.
 
 Lemma get_template_synced cfg fs c name c' r : arity_bug cfg = false -> synced cfg fs c ->
   get_template cfg fs c name = (c', r) -> r = spec_get cfg fs name /\ synced cfg fs c'.
@@ -235,13 +248,14 @@ Proof.
   { intros c2 r2 H. split; [exact (load_spec _ _ _ _ _ _ H)|]. revert H. unfold load.
     destruct (resolve cfg name) as [p|] eqn:Er; [|now intros [= <- <-]].
     destruct (alookup fs p) as [f|] eqn:Ef; [|now intros [= <- <-]].
+    destruct (broken (f_content f) =? 0)%N eqn:Eb; [|now intros [= <- <-]]. apply N.eqb_eq in Eb.
     intros [= <- <-] n e. rewrite alookup_aset. destruct (bytes_eqb name n) eqn:En; [|apply G].
     apply bytes_eqb_eq in En. subst n. intros [= <-]. exists p, f. auto. }
   unfold get_template. destruct (alookup c name) as [e|] eqn:Ec; [|apply Hload].
   destruct (cache_enabled cfg).
   - destruct (opt_nat_eqb (current_version cfg fs name) (entry_key cfg e)); [|apply Hload].
-    intros [= <- <-]. split; [|exact G]. destruct (G _ _ Ec) as (p & f & Hr & Hf & He).
-    unfold spec_get. now rewrite Hr, Hf, He.
+    intros [= <- <-]. split; [|exact G]. destruct (G _ _ Ec) as (p & f & Hr & Hf & He & Hok).
+    unfold spec_get. rewrite Hr, Hf, <- He, Hok. reflexivity.
   - rewrite Hb. destruct (root_dir cfg); apply Hload.
 Qed.
 
@@ -258,7 +272,7 @@ Lemma do_edit_inv cfg st p new k : step_ok cfg (Edit p new k) = true ->
   inv cfg (s_fs st) (s_cache st) (s_next st) ->
   inv cfg (s_fs (do_edit st p new k)) (s_cache (do_edit st p new k)) (s_next (do_edit st p new k)).
 Proof.
-  intros Hok G Hc. destruct (G Hc) as [H1 H2 H3 H4]. destruct new as [ct|]; cbn [do_edit s_fs s_cache s_next].
+  intros Hok G Hc. destruct (G Hc) as [H1 H2 H3 H4 H5]. destruct new as [ct|]; cbn [do_edit s_fs s_cache s_next].
   - (* the key of the new file is the fresh counter value *)
     set (mt := match alookup (s_fs st) p with Some old => if k then f_mtime old else s_next st | None => s_next st end).
     assert (Hkey : file_key cfg {| f_content := ct; f_ver := s_next st; f_mtime := mt |} = s_next st).
@@ -279,12 +293,14 @@ Proof.
       * intros [= <-] Hq'. rewrite Hkey. intros Hv. specialize (H1 _ _ Hq'). lia.
       * intros Hq [= <-]. rewrite Hkey. intros Hv. specialize (H1 _ _ Hq). lia.
       * apply H4.
+    + exact H5.
   - split.
     + intros q f. rewrite alookup_aremove. destruct (bytes_eqb p q); [discriminate|apply H1].
     + exact H2.
     + intros q f n e. rewrite alookup_aremove. destruct (bytes_eqb p q); [discriminate|apply H3].
     + intros q f q' f'. rewrite !alookup_aremove.
       destruct (bytes_eqb p q); [discriminate|]. destruct (bytes_eqb p q'); [discriminate|]. apply H4.
+    + exact H5.
 Qed.
 
 Lemma run_spec_cache_irrel fuel cfg : forall h st st', s_fs st = s_fs st' -> s_next st = s_next st' ->
@@ -334,29 +350,22 @@ Qed.
 
 (* ---------- no TypeError ever ---------- *)
 Lemma spec_get_no_te cfg fs name : spec_get cfg fs name <> ETypeError.
-Proof. unfold spec_get. destruct (resolve cfg name); [destruct (alookup fs b)|]; discriminate. Qed.
+Proof.
+  unfold spec_get. destruct (resolve cfg name); [destruct (alookup fs b) as [f|]; [destruct (broken (f_content f) =? 0)%N|]|];
+    discriminate.
+Qed.
 
 Lemma spec_items_no_te cfg fs x rec : (forall n ct, rec n ct <> ETypeError) ->
   forall parent its, spec_items cfg fs x rec parent its <> ETypeError.
 Proof.
   intros Hrec parent. induction its as [|it r IH]; cbn [spec_items]; [discriminate|].
-  destruct it as [s|k|n|n|n].
-  - destruct (spec_items cfg fs x rec parent r); cbn; try discriminate. congruence.
-  - destruct (spec_items cfg fs x rec parent r); cbn; try discriminate. congruence.
-  - pose proof (spec_get_no_te cfg fs (join_path cfg n parent)) as Hg.
-    destruct (spec_get cfg fs (join_path cfg n parent)) as [ct| | |]; try discriminate; [|congruence].
-    pose proof (Hrec (join_path cfg n parent) ct) as Hr.
-    destruct (rec (join_path cfg n parent) ct); try discriminate; [|congruence].
-    destruct (spec_items cfg fs x rec parent r); cbn; try discriminate. congruence.
-  - pose proof (spec_get_no_te cfg fs (join_path cfg n parent)) as Hg.
-    destruct (spec_get cfg fs (join_path cfg n parent)) as [ct| | |]; cbn; try discriminate; [|congruence].
-    destruct (spec_items cfg fs x rec parent r); cbn; try discriminate. congruence.
-  - pose proof (spec_get_no_te cfg fs (join_path cfg n parent)) as Hg.
-    destruct (spec_get cfg fs (join_path cfg n parent)) as [ct| | |]; try discriminate; [| |congruence].
-    + pose proof (Hrec (join_path cfg n parent) ct) as Hr.
-      destruct (rec (join_path cfg n parent) ct); try discriminate; [|congruence].
-      destruct (spec_items cfg fs x rec parent r); cbn; try discriminate. congruence.
-    + destruct (spec_items cfg fs x rec parent r); cbn; try discriminate. congruence.
+  destruct it as [s|k|n|n|n];
+    try (pose proof (spec_get_no_te cfg fs (join_path cfg n parent)) as Hg);
+    repeat match goal with
+           | |- context [spec_get ?a ?b ?c] => destruct (spec_get a b c) eqn:?
+           | |- context [rec ?a ?b] => let H := fresh "Hr" in pose proof (Hrec a b) as H; destruct (rec a b) eqn:?
+           | |- context [spec_items ?a ?b ?c ?d ?e ?f] => destruct (spec_items a b c d e f) eqn:?
+           end; cbn; try discriminate; try congruence.
 Qed.
 
 Lemma spec_tpl_no_te fuel cfg fs x : forall n ct, spec_tpl fuel cfg fs x n ct <> ETypeError.
@@ -367,7 +376,7 @@ Qed.
 Lemma spec_render_no_te fuel cfg fs name caller : spec_render fuel cfg fs name caller <> ETypeError.
 Proof.
   unfold spec_render. pose proof (spec_get_no_te cfg fs name).
-  destruct (spec_get cfg fs name); try discriminate; [apply spec_tpl_no_te|congruence].
+  destruct (spec_get cfg fs name); try discriminate; try congruence. apply spec_tpl_no_te.
 Qed.
 
 Lemma run_spec_no_te fuel cfg : forall h st, ~ In ETypeError (run_spec fuel cfg st h).
